@@ -560,10 +560,14 @@ Definition reflects (T : tables) (t : toml_cfg) (c : pconfig) : Prop :=
   p_octave c = t_octave t /\ p_semitone c = t_semitone t /\ p_channel c = t_channel t /\
   (* velocity 0 means 64 *)
   (t_velocity t = 0%Z -> p_velocity c = 64%Z) /\ (t_velocity t <> 0%Z -> p_velocity c = t_velocity t) /\
-  (* the default mapping index designates the last mapping carrying the default name *)
+  (* the default mapping index designates a mapping carrying the default name *)
   (exists m, nth_error (t_mappings t) (p_mapping c) = Some m /\ tm_name m = t_defmap t) /\
-  (forall j m, (p_mapping c < j)%nat -> nth_error (t_mappings t) j = Some m -> tm_name m <> t_defmap t) /\
   Forall2 color_states (t_rgb t) (p_colors c).
+
+(* which one, when several mappings carry that name: the code takes the last one.  Stated and proved separately
+   (C10_default_is_last); not part of the run-time monitor, because the property text does not choose among them. *)
+Definition default_is_last (t : toml_cfg) (c : pconfig) : Prop :=
+  forall j m, (p_mapping c < j)%nat -> nth_error (t_mappings t) j = Some m -> tm_name m <> t_defmap t.
 
 (* ------------------------------------------------------------------ MIDI ranges *)
 Definition wf_key (k : key) : Prop := k_note k <= 127 /\ k_off k <= 15.
@@ -761,12 +765,6 @@ Definition color_states_b (v : Z) (c : color) : bool :=
 Definition opt_cmode_eqb (a : option cmode) (b : cmode) : bool :=
   match a with Some x => cmode_eqb x b | None => false end.
 
-Fixpoint none_after (want : str) (l : list t_mapping) (i : nat) (idx : nat) : bool :=
-  match l with
-  | [] => true
-  | m :: r => (if Nat.ltb idx i then negb (str_eqb (tm_name m) want) else true) && none_after want r (S i) idx
-  end.
-
 Definition reflects_b (T : tables) (t : toml_cfg) (c : pconfig) : bool :=
   (p_bus c =? t_bus t) && (p_vendor c =? t_vendor t) && (p_product c =? t_product t) && (p_version c =? t_version t) &&
   str_eqb (p_uniq c) (t_uniq t) &&
@@ -781,7 +779,6 @@ Definition reflects_b (T : tables) (t : toml_cfg) (c : pconfig) : bool :=
   | Some m => str_eqb (tm_name m) (t_defmap t)
   | None => false
   end &&
-  none_after (t_defmap t) (t_mappings t) 0 (p_mapping c) &&
   forall2b color_states_b (t_rgb t) (p_colors c).
 
 Definition wf_key_b (k : key) : bool := (k_note k <=? 127) && (k_off k <=? 15).
